@@ -732,7 +732,8 @@ def stepCall (calls : Array CallJ) (st : RunState) (c : CallJ) : R RunState := d
   let d ← compareFacts st.h h1 ext1 c
   let d := d.map (fun x => s!"{st.k}:{c.name}: {x}")
   -- the model's own observation of the same call satisfies the predicate (cf. model_holds_partial)
-  let mh := ops.all (fun op => holds (obsOp st.h op []).1 || !(okCall st.h op))
+  let mh := (ops.foldl (fun (acc : Bool × Heap G) op =>
+    (acc.1 && (holds (obsOp acc.2 op []).1 || !(okCall acc.2 op)), stepOp acc.2 op)) (true, st.h)).1
   pure { h := h1, ext := ext1, prevAfter := c.after, prevExt := extAll c, k := st.k + 1,
          verdict := st.verdict.and v, diff := match st.diff with | some x => some x | none => d,
          modelHolds := st.modelHolds && mh }
